@@ -29,7 +29,7 @@ RULE_TEXT = ('runs = seeded random suites of 2..6 cases (disturbers: env in both
              'with --suite + every case alone beside exactly.suite (+ the sub-suite case). Non-trivial = at least one '
              'disturber ran before an observer in one of the runs; distinct = (case kinds and endings in order, suite '
              'phases, sub-suite phases, preprocessor).')
-REACH_PROBES = ['disturber_before_observer', 'disturber_ended_by_exception', 'disturber_ended_by_timeout',
+REACH_PROBES = ['suite_conf_status', 'suite_conf_actor', 'disturber_before_observer', 'disturber_ended_by_exception', 'disturber_ended_by_timeout',
                 'disturber_ended_by_hard_error', 'disturber_failing_cleanup', 'observer_foreign_symbol_reference',
                 'observer_same_symbol_names', 'suite_phase_setup', 'suite_phase_before_assert', 'suite_phase_assert',
                 'suite_phase_cleanup', 'sub_suite_case', 'suite_preprocessor', 'mode_suite_run', 'mode_permuted',
@@ -153,7 +153,9 @@ def make_plan(i, master, tier):
         g.shuffle(perm)
     return {'format': 1, 'property': PROPERTY, 'engine': 'c17', 'run_seed': seed, 'tier': tier,
             'knobs': {'mem_buff_size': g.choice([1, 8192])}, 'entry': 'cli', 'cases': cases, 'suite_phases': suite_phases,
-            'preprocessor': g.random() < 0.25, 'sub': sub, 'perm': perm, 'sweep': False}
+            'preprocessor': g.random() < 0.25, 'sub': sub, 'perm': perm, 'sweep': False,
+            # case configuration supplied by the suite's [conf]: applies to directly listed cases, in every run mode
+            'suite_conf': {'status_fail': g.random() < 0.2, 'actor': g.random() < 0.2}}
 
 
 # ----------------------------------------------------------------------------- model
@@ -188,8 +190,16 @@ def render_case(c):
 def suite_text(plan, key, order=None):
     lines = []
     if key == 'root':
+        sc = plan.get('suite_conf') or {}
+        conf = []
         if plan['preprocessor']:
-            lines += ['[conf]', 'preprocessor = pp -x']
+            conf.append('preprocessor = pp -x')
+        if sc.get('status_fail'):
+            conf.append('status = FAIL')
+        if sc.get('actor'):
+            conf.append('actor = source % interp')
+        if conf:
+            lines += ['[conf]'] + conf
         if plan['sub']:
             lines += ['[suites]', 'sub/sub.suite']
         lines += ['[cases]']
@@ -301,7 +311,7 @@ def _record(sim, w, s0, s1, t0, t1, sandbox_index):
 def execute(plan, scratch):
     w = world_mod.World(os.path.join(scratch, 'w'))
     cases = plan['cases']
-    procs = {'pp': {'exit': 0, 'cat_last_arg_file': True}}
+    procs = {'pp': {'exit': 0, 'cat_last_arg_file': True}, 'interp': {'exit': 0}}
     faults = []
     for c in cases + ([plan['sub']['case']] if plan['sub'] else []):
         procs.update(c['procs'])
@@ -415,6 +425,10 @@ def _probes(plan, hist):
         pr['sub_suite_case'] = 1
     if plan['preprocessor']:
         pr['suite_preprocessor'] = 1
+    if (plan.get('suite_conf') or {}).get('status_fail'):
+        pr['suite_conf_status'] = 1
+    if (plan.get('suite_conf') or {}).get('actor'):
+        pr['suite_conf_actor'] = 1
     hist['probes'] = pr
     hist['armed'] = {c['end']: 1 for c in cases}
     hist['fired'] = {}
@@ -494,10 +508,12 @@ def oracle(plan, hist):
             ploc = P.locate(cp['case'], primary) if primary else None
             failing_cleanup = {g_['id'] for g_ in c01._armed(cp) if c01._is_cleanup_main(cp, g_)}
             items = P.executed_items(cp['case'], 'PASS', False, ploc, failing_cleanup)
+            sc = (plan.get('suite_conf') or {}) if suite_key == 'root' else {}
+            atc_tag = 'interp' if sc.get('actor') else '%s-atc' % cid
             want_seq = []
             for ph, idx, item in items:
                 if ph == 'act':
-                    want_seq.append('%s-atc' % cid)
+                    want_seq.append(atc_tag)
                 elif item and item['k'] == 'probe':
                     want_seq.append(item['id'])
             got_seq = [e['id'] for e in events if e['kind'] == 'spawn']
@@ -506,7 +522,7 @@ def oracle(plan, hist):
                 continue
             first = True
             for e in events:
-                x = expect.get('atc' if e['id'].endswith('-atc') else e['id'])
+                x = expect.get('atc' if (e['id'].endswith('-atc') or e['id'] == 'interp') else e['id'])
                 if x is None:
                     continue
                 if e['kind'] == 'spawn':
@@ -547,6 +563,8 @@ def oracle(plan, hist):
                 ok = {'FAIL'}
             else:
                 ok = {'PASS'}
+            if sc.get('status_fail'):
+                ok = {{'PASS': 'XPASS', 'FAIL': 'XFAIL'}.get(v, v) for v in ok}
             if rec['ident'] not in ok:
                 bad('outcome', sorted(ok), rec['ident'], case=cid, mode=mode)
         # --- relative: identical observation record in every mode and order
@@ -589,8 +607,9 @@ def _first_diff(a, b):
 def signature(plan, hist):
     kinds = tuple((c['kind'], c['end']) for c in plan['cases'])
     nontrivial = bool(hist['probes'].get('disturber_before_observer'))
+    sc = plan.get('suite_conf') or {}
     return nontrivial, (kinds, tuple(plan['suite_phases']), tuple(plan['sub']['phases']) if plan['sub'] else None,
-                        plan['preprocessor'], tuple(plan['perm']))
+                        plan['preprocessor'], tuple(plan['perm']), bool(sc.get('status_fail')), bool(sc.get('actor')))
 
 
 def sample_view(plan, hist):
